@@ -317,7 +317,7 @@ Definition conn_guard (N : popnet) (c : conn) : bool :=
 
 (* the state has the shapes of the network *)
 Definition shapes_ok (N : popnet) (hist : list nstate) (c : conn) (V : mat) : Prop :=
-  length (delayed N hist (eff_delay (cdelay c)) (csrc c) (csv c)) = size_of N (csrc c) /\
+  length (src_vec N hist c V) = size_of N (csrc c) /\
   length (post_of N hist c) = size_of N (ctgt c) /\
   (is_dyn (ccpl c) = true -> length V = size_of N (ctgt c)).
 
@@ -329,7 +329,7 @@ Proof.
   unfold conn_guard in Hg. apply andb_true_iff in Hg. destruct Hg as [Hcol Hg]. apply negb_true_iff in Hcol.
   unfold wf_conn in Hwf. apply andb_true_iff in Hwf. destruct Hwf as [_ Hrect].
   unfold pop_contrib, expand_conn, pop_source. rewrite Hcol.
-  set (s := delayed N hist (eff_delay (cdelay c)) (csrc c) (csv c)) in *.
+  set (s := src_vec N hist c V) in *.
   set (t := post_of N hist c) in *.
   destruct (cw c) as [W|w] eqn:Ew.
   - destruct (rect_rows _ _ _ Hrect) as [HL HR].
@@ -367,7 +367,7 @@ Qed.
 (* the full statement is false of the faithful model: computed witnesses, one per guard *)
 Definition st1 (x z : vec) : pstate := {| sx := x; sz := z |}.
 Definition mkconn s sv t tv w k pv d : conn :=
-  {| csrc := s; csv := sv; ctgt := t; ctv := tv; cw := w; ccpl := k; cpv := pv; cdelay := d |}.
+  {| csrc := s; csv := sv; ctgt := t; ctv := tv; cw := w; ccpl := k; cpv := pv; cdelay := d; cspread := None |}.
 Definition two_pops (n0 n1 : nat) : list pop :=
   [ {| psize := n0; ppars := [PScal 0; PScal 0; PScal 0; PScal 0] |}; {| psize := n1; ppars := [PScal 0; PScal 0; PScal 0; PScal 0] |} ].
 Definition W22 : mat := [[mkq 1 1; mkq (-2) 1]; [mkq 3 4; mkq (-1) 1]].
@@ -546,28 +546,30 @@ Qed.
 
 (* guard of the trajectory theorem: per-connection guards, no loud class, no dynamic coupling (edge states) *)
 Definition no_dyn (N : popnet) : bool := forallb (fun c => negb (is_dyn (ccpl c))) (conns N).
-Definition traj_guard (N : popnet) : bool := forallb (conn_guard N) (conns N) && negb (loud N) && no_dyn N.
+Definition no_spread (N : popnet) : bool := forallb (fun c => match cspread c with None => true | Some _ => false end) (conns N).
+Definition traj_guard (N : popnet) : bool := forallb (conn_guard N) (conns N) && negb (loud N) && (no_dyn N && no_spread N).
 
-Lemma conn_ok_all N h : wf_net N = true -> forallb (conn_guard N) (conns N) = true -> no_dyn N = true -> good_hist N h ->
+Lemma conn_ok_all N h : wf_net N = true -> forallb (conn_guard N) (conns N) = true -> no_dyn N = true -> no_spread N = true -> good_hist N h ->
   Forall (conn_ok N h) (combine (conns N) (snd (cur h) ++ repeat [] (length (conns N)))).
 Proof.
-  intros Hwf Hg Hnd Hh. apply Forall_forall. intros [c V] Hin. apply in_combine_l in Hin.
+  intros Hwf Hg Hnd Hns Hh. apply Forall_forall. intros [c V] Hin. apply in_combine_l in Hin.
+  unfold no_spread in Hns. rewrite forallb_forall in Hns. specialize (Hns c Hin).
   unfold wf_net in Hwf. apply andb_true_iff in Hwf. destruct Hwf as [_ Hwc].
   rewrite forallb_forall in Hwc, Hg. unfold no_dyn in Hnd. rewrite forallb_forall in Hnd.
   specialize (Hwc c Hin). specialize (Hg c Hin). specialize (Hnd c Hin).
   unfold conn_ok. cbn [fst snd]. repeat split; try assumption.
   - unfold wf_conn in Hwc. apply andb_true_iff in Hwc. destruct Hwc as [Hwc _]. apply andb_true_iff in Hwc.
-    destruct Hwc as [Hs _]. apply Nat.ltb_lt in Hs. now apply delayed_length.
+    destruct Hwc as [Hs _]. apply Nat.ltb_lt in Hs. unfold src_vec. destruct (cspread c); [discriminate Hns|]. now apply delayed_length.
   - unfold wf_conn in Hwc. apply andb_true_iff in Hwc. destruct Hwc as [Hwc _]. apply andb_true_iff in Hwc.
     destruct Hwc as [_ Ht]. apply Nat.ltb_lt in Ht. unfold post_of. now apply delayed_length.
   - intros Hd. rewrite Hd in Hnd. discriminate Hnd.
 Qed.
 
 (* one evaluation of the right-hand side: population circuit = explicit network, as whole states *)
-Lemma deriv_eq U N h : wf_net N = true -> forallb (conn_guard N) (conns N) = true -> no_dyn N = true -> good_hist N h ->
+Lemma deriv_eq U N h : wf_net N = true -> forallb (conn_guard N) (conns N) = true -> no_dyn N = true -> no_spread N = true -> good_hist N h ->
   pop_deriv U N h = exp_deriv 0 U N h.
 Proof.
-  intros Hwf Hg Hnd Hh. pose proof (conn_ok_all N h Hwf Hg Hnd Hh) as Hok.
+  intros Hwf Hg Hnd Hns Hh. pose proof (conn_ok_all N h Hwf Hg Hnd Hns Hh) as Hok.
   unfold pop_deriv, exp_deriv. f_equal.
   - apply map_ext_in. intros p Hp. apply in_seq in Hp. cbv zeta.
     assert (E : map (fun i => U (map (fun v => nth i v 0) (pop_pars (pop_of N p))) (nth i (sx (nth p (fst (cur h)) dps)) 0)
@@ -589,13 +591,13 @@ Lemma deriv_good U N h : good_units N (fst (exp_deriv 0 U N h)).
 Proof. unfold exp_deriv. cbn [fst]. apply (units_of_map_good N). Qed.
 
 Lemma run_hist_eq U N dt init k :
-  wf_net N = true -> forallb (conn_guard N) (conns N) = true -> no_dyn N = true -> good_units N (fst init) ->
+  wf_net N = true -> forallb (conn_guard N) (conns N) = true -> no_dyn N = true -> no_spread N = true -> good_units N (fst init) ->
   run_hist (pop_deriv U N) dt init k = run_hist (exp_deriv 0 U N) dt init k /\
   good_hist N (run_hist (exp_deriv 0 U N) dt init k) /\ good_units N (fst (cur (run_hist (exp_deriv 0 U N) dt init k))).
 Proof.
-  intros Hwf Hg Hnd Hi. induction k as [|k (IH1 & IH2 & IH3)]; cbn [run_hist].
+  intros Hwf Hg Hnd Hns Hi. induction k as [|k (IH1 & IH2 & IH3)]; cbn [run_hist].
   - split; [reflexivity|]. split; [constructor; [exact Hi|constructor]|exact Hi].
-  - rewrite IH1. rewrite (deriv_eq U N _ Hwf Hg Hnd IH2).
+  - rewrite IH1. rewrite (deriv_eq U N _ Hwf Hg Hnd Hns IH2).
     assert (Hnew : good_units N (fst (euler dt (cur (run_hist (exp_deriv 0 U N) dt init k))
                                           (exp_deriv 0 U N (run_hist (exp_deriv 0 U N) dt init k))))).
     { apply euler_good; [exact IH3|apply deriv_good]. }
@@ -624,9 +626,10 @@ Theorem pop_run_is_exp_run U N units dt rows :
   pop_run U N units dt rows = Some (exp_run 0 U N units dt rows).
 Proof.
   intros Hwf Hu Hg. unfold traj_guard in Hg. apply andb_true_iff in Hg. destruct Hg as [Hg Hnd].
+  apply andb_true_iff in Hnd. destruct Hnd as [Hnd Hns].
   apply andb_true_iff in Hg. destruct Hg as [Hg Hl]. apply negb_true_iff in Hl.
   unfold pop_run, exp_run. rewrite (norm_id N Hg). cbv zeta. rewrite Hl. f_equal.
   rewrite (init_edges_no_dyn N 0 Hnd). unfold traj. destruct rows as [|k]; [reflexivity|].
-  destruct (run_hist_eq U N dt (units, init_edges_exp N 0) k Hwf Hg Hnd (wf_units_good N units Hu)) as [E _].
+  destruct (run_hist_eq U N dt (units, init_edges_exp N 0) k Hwf Hg Hnd Hns (wf_units_good N units Hu)) as [E _].
   now rewrite E.
 Qed.
